@@ -266,10 +266,15 @@ def run(ctx: Ctx):
                         order.append(("assign", idx, n))
                     elif cn == "setattr" and len(n.args) == 3 and isinstance(n.args[2], ast.List):
                         order.append(("listdef", idx, n))
+                    elif cn == "setattr" and len(n.args) == 3 and A.dotted(n.args[0]) == "self":
+                        order.append(("default", idx, n))
                 if isinstance(n, ast.Assign):
                     for t in n.targets:
                         if A.dotted(t) == "self._avps":
                             order.append(("clear", idx, n))
+                        elif isinstance(t, ast.Attribute) and A.dotted(t.value) == "self" \
+                                and not t.attr.startswith("_") and t.attr != "header":
+                            order.append(("default", idx, n))
         kinds = [k for k, _, _ in order]
         pos = {k: [i for kk, i, _ in order if kk == k] for k in set(kinds)}
         problems = []
@@ -286,6 +291,10 @@ def run(ctx: Ctx):
             if "listdef" in pos and max(pos["listdef"]) > min(pos["assign"]):
                 problems.append("a list default is installed after assign_attr_from_defs "
                                 "(decoded values are overwritten)")
+            if "default" in pos and max(pos["default"]) > min(pos["assign"]):
+                problems.append("an attribute default is installed after assign_attr_from_defs: "
+                                "the value decoded from the received AVP is overwritten, so "
+                                "decode-encode no longer reproduces the bytes")
             if "listdef" in pos and min(pos["listdef"]) < max(pos["super"]):
                 pass  # harmless: DefinedMessage.__post_init__ only creates _additional_avps
             if min(pos["clear"]) < max(pos["assign"]):
